@@ -257,7 +257,7 @@ def shrink_and_confirm(build, prop, scenario, res, viol, budget_s=90):
     # Confirm the un-minimised tapes replay in a fresh process first.
     rc, out = single(build, {'SIM_SCENARIO': scenario, 'SIM_REPLAY': path})
     rep = [r for r in out if 'seed' in r]
-    if not rep or not any(v['prop'] == prop and v['kind'] == viol['kind'] for v in (rep[0].get('violations') or [])):
+    if not rep or not any(v['prop'] in (prop, '*') and v['kind'] == viol['kind'] for v in (rep[0].get('violations') or [])):
         return path, False, 'the recorded tapes did not reproduce the violation in a fresh process'
     # Minimise.
     t0 = time.time()
@@ -278,11 +278,11 @@ def shrink_and_confirm(build, prop, scenario, res, viol, budget_s=90):
         json.dump(cand, open(cpath, 'w'), indent=1)
         rc, out = single(build, {'SIM_SCENARIO': scenario, 'SIM_REPLAY': cpath})
         rep = [r for r in out if 'seed' in r]
-        if rep and any(v['prop'] == prop and v['kind'] == viol['kind'] for v in (rep[0].get('violations') or [])):
+        if rep and any(v['prop'] in (prop, '*') and v['kind'] == viol['kind'] for v in (rep[0].get('violations') or [])):
             cand['trace'] = rep[0].get('trace')
             cand['schedule'] = rep[0].get('sched')
             cand['workload'] = (rep[0].get('samples') or [None])[0]
-            cand['message'] = [v['msg'] for v in rep[0]['violations'] if v['prop'] == prop and v['kind'] == viol['kind']][0]
+            cand['message'] = [v['msg'] for v in rep[0]['violations'] if v['prop'] in (prop, '*') and v['kind'] == viol['kind']][0]
             json.dump(cand, open(path, 'w'), indent=1)
         os.remove(cpath)
     except Exception as e:  # keep the un-minimised, confirmed file
@@ -369,7 +369,7 @@ def _check(prop, tier, spec, base_seed, build, t0, runs_override):
     viols = {}
     for s, r in runs:
         for v in r.get('violations') or []:
-            if v['prop'] == prop:
+            if v['prop'] in (prop, '*'):
                 viols.setdefault(v['kind'], []).append((s, r, v))
 
     if os.environ.get('VERIF_DEBUG'):
@@ -466,7 +466,7 @@ def replay(prop, path):
         if not rep:
             trouble(f'replay produced no result (rc={rc}): {out}')
         r = rep[0]
-        hit = [v for v in (r.get('violations') or []) if v['prop'] == rf['property'] and v['kind'] == rf['kind']]
+        hit = [v for v in (r.get('violations') or []) if v['prop'] in (rf['property'], '*') and v['kind'] == rf['kind']]
         for line in (r.get('trace') or [])[-60:]:
             print('   ', line)
         if hit:
